@@ -733,8 +733,22 @@ type condSite struct {
 	name string // Lean name
 }
 
+// usesCanon: the canonical (Env) name of the variable a "uses:<type>" site looks at
+var usesCanon = map[string]string{"ComparisonOperator": "assert"}
+
+// splitAnd splits a condition on its top-level `&&`
+func splitAnd(e ast.Expr) []ast.Expr {
+	if p, ok := e.(*ast.ParenExpr); ok {
+		return splitAnd(p.X)
+	}
+	if b, ok := e.(*ast.BinaryExpr); ok && b.Op == token.LAND {
+		return append(splitAnd(b.X), splitAnd(b.Y)...)
+	}
+	return []ast.Expr{e}
+}
+
 var condSites = []condSite{
-	{"stack.index", "if", 0, "index_nonempty"},
+	{"stack.index", "if+", 0, "index_nonempty"}, // "if+": the main path lies inside; written as a guard clause (`if c { return }`) it is the negation
 	{"stack.index", "if", 1, "index_isneg"},
 	{"stack.index", "if", 2, "index_negok"},
 	{"stack.index", "if", 3, "index_isover"},
@@ -746,14 +760,14 @@ var condSites = []condSite{
 	{"stack.insert", "if", 2, "insert_front"},
 	{"stack.insert", "assign:ok", 0, "insert_ok_append"},
 	{"stack.remove", "assign:ok", 0, "remove_ok"},
-	{"stack.transfer", "if", 0, "transfer_hascap"},
-	{"stack.transfer", "if", 1, "transfer_nofit"},
+	{"stack.transfer", "atom", 0, "transfer_hascap"}, // "atom": k-th condition after splitting `a && b` (nested ifs and a merged guard are the same)
+	{"stack.transfer", "atom", 1, "transfer_nofit"},
 	{"stack.transfer", "assign:ok", 0, "transfer_ok"},
 	{"stack.defrag", "if", 2, "defrag_go"},
 	{"stack.defrag", "if", 3, "defrag_trunc"},
 	{"stack.implode", "loopexit", 0, "implode_stop"},
 	{"stack.verifyImplode", "assign:last", 1, "implode_last"},
-	{"Condition.Valid", "if", 5, "cond_op_bogus"},
+	{"Condition.Valid", "uses:ComparisonOperator", 0, "cond_op_bogus"}, // the condition that looks at a value of that type
 }
 
 func genConds() string {
@@ -773,28 +787,42 @@ func genConds() string {
 		n := 0
 		var ifs []*ast.IfStmt
 		type branch struct {
-			pos  token.Pos
-			cond ast.Expr
-			init ast.Stmt
+			pos   token.Pos
+			cond  ast.Expr
+			init  ast.Stmt
+			guard bool // `if cond { return }` without else
 		}
 		var branches []branch
+		ifKind := cs.kind == "if" || cs.kind == "if+" || cs.kind == "atom" || strings.HasPrefix(cs.kind, "uses:")
+		negate := false
 		ast.Inspect(fd.Body, func(nd ast.Node) bool {
 			if found != nil {
 				return false
 			}
 			switch v := nd.(type) {
 			case *ast.IfStmt:
-				if cs.kind == "if" {
+				if ifKind {
 					ifs = append(ifs, v)
-					branches = append(branches, branch{v.Cond.Pos(), v.Cond, v.Init})
+					bare := v.Else == nil && len(v.Body.List) == 1
+					if bare {
+						rs, isRet := v.Body.List[0].(*ast.ReturnStmt)
+						bare = isRet && len(rs.Results) == 0
+					}
+					if cs.kind == "atom" {
+						for _, a := range splitAnd(v.Cond) {
+							branches = append(branches, branch{a.Pos(), a, v.Init, false})
+						}
+					} else {
+						branches = append(branches, branch{v.Cond.Pos(), v.Cond, v.Init, bare})
+					}
 				}
 			case *ast.SwitchStmt:
 				// a tagless switch is an if / else-if chain
-				if cs.kind == "if" && v.Tag == nil {
+				if ifKind && v.Tag == nil {
 					for _, c := range v.Body.List {
 						cc := c.(*ast.CaseClause)
 						if len(cc.List) == 1 {
-							branches = append(branches, branch{cc.List[0].Pos(), cc.List[0], v.Init})
+							branches = append(branches, branch{cc.List[0].Pos(), cc.List[0], v.Init, false})
 						}
 					}
 				}
@@ -875,10 +903,37 @@ func genConds() string {
 			fmt.Fprintf(&b, "/-- from Go `%s` (%s): some early-return guard fires -/\ndef %s (env : Env) : Bool := %s\n\n", cs.fn, posOf(fd), cs.name, strings.Join(parts, " || "))
 			continue
 		}
-		if cs.kind == "if" {
+		if strings.HasPrefix(cs.kind, "uses:") {
+			// keep the conditions that mention a variable of the named type
+			tn := strings.TrimPrefix(cs.kind, "uses:")
+			var keep []branch
+			for _, br := range branches {
+				uses := false
+				ast.Inspect(br.cond, func(m ast.Node) bool {
+					if id, ok := m.(*ast.Ident); ok {
+						if obj, ok := info.Uses[id].(*types.Var); ok {
+							if nt, ok := obj.Type().(*types.Named); ok && nt.Obj().Name() == tn {
+								uses = true
+								if x.rename == nil {
+									x.rename = map[*types.Var]string{}
+								}
+								x.rename[obj] = usesCanon[tn] // the Env field this value is bound to
+							}
+						}
+					}
+					return true
+				})
+				if uses {
+					keep = append(keep, br)
+				}
+			}
+			branches = keep
+		}
+		if ifKind {
 			sort.Slice(branches, func(i, j int) bool { return branches[i].pos < branches[j].pos })
 			if cs.k < len(branches) {
 				v := branches[cs.k]
+				negate = cs.kind == "if+" && v.guard
 				found = v.cond
 				if v.init != nil {
 					as, ok := v.init.(*ast.AssignStmt)
@@ -894,6 +949,9 @@ func genConds() string {
 			die("%s: site %s #%d not found", cs.fn, cs.kind, cs.k)
 		}
 		s, t := x.expr(found)
+		if negate {
+			s = "(!" + s + ")"
+		}
 		if initLet != "" {
 			s = "(" + strings.TrimSuffix(initLet, "\n") + "; " + s + ")"
 		}
